@@ -16,6 +16,8 @@ class C10(PropBase):
         """One rewrite pair from the entry [base]: returns (rule, left, rights, meta) or None.  [pool] = entries of the universe."""
         segs = base.split('/')
         bsegs = base.split('/')
+        if any('>' in g for g in bsegs):
+            return None      # a '>' inside a longer value ('>x') is not a search of the grammar (DESIGN.md, O5): no rewrite pairs from such entries
         for i in range(len(segs)):
             if rng.random() < 0.35:
                 segs[i] = '*'
